@@ -114,6 +114,12 @@ class MemStorage(Storage):
             stage.append(('trunc', self.sid, key, filename))
             sink = _StageSink(stage, self.sid, key)
             return _MemBytes(sink, filename) if 'b' in mode else _MemText(sink, filename)
+        if 'r' in mode and '+' not in mode and key not in self.d:
+            # an object-store-like provider: nothing was ever stored under this key.  The Storage
+            # contract does not name the exception for that, and labtech has no reason to read from a
+            # key for which exists() is False
+            from labtech.exceptions import StorageError
+            raise StorageError(f'MemStorage: no entry under key {key!r}')
         files = self.d.setdefault(key, {}) if stage is None else self.d.get(key, {})
         binary = 'b' in mode
         if 'r' in mode and '+' not in mode:
